@@ -8,7 +8,8 @@ def build(props=None):
     eng = Engine(props_filter=props)
     import contracts.scoped_dict as sd
     import contracts.ast_ops as ao
-    mods = [sd, ao]
+    import contracts.functions as fu
+    mods = [sd, ao, fu]
     for m in mods:
         eng.contracts.update(m.contracts(eng))
     tasks = []
